@@ -458,7 +458,7 @@ func (c *effCtx) mayLogFunc(fn *ssa.Function) bool {
 			return false
 		}
 	}
-	if fc := c.P.Contracts.Funcs[FuncKey(fn)]; fc != nil && fc.Logged {
+	if fc := c.P.Contracts.Funcs[FuncKey(fn)]; fc != nil && (fc.Logged || len(fc.GhostAdds) > 0) {
 		c.logMemo[fn] = 2
 		return true
 	}
